@@ -28,6 +28,17 @@ checks = {
    note="Bounded by depth and alphabets in evidence.bounds; token kind is read from the IntrospectionResponder because the HTTP writer does not render it."),
 }
 
+checks.update({
+ "C02": dict(level="model_checking", engine="ENUM", ref="DESIGN.md §5 C02",
+   technique="exhaustive enumeration of the full product of attempt dimensions at several history positions on the real provider, reference predicate + store-dump equality",
+   text="Every combination of owner client (confidential/public, with/without redirect_uri sent) x flow x history position x token strategy x presenter x redirect_uri form x smuggled parameter x code age is executed as authorize -> attempt -> legitimate redemption -> introspection on a fresh provider. Issuance only for owner + string-equal redirect_uri + unexpired; refusals must be invalid_grant for foreign client / different redirect_uri, leave the store dump unchanged and the code redeemable; issued tokens carry exactly the grant.",
+   note="Alphabets are those listed in evidence.bounds; code ages are 5 s away from the expiry instant (expiry rounding is C07)."),
+ "C05": dict(level="model_checking", engine="ENUM", ref="DESIGN.md §5 C05",
+   technique="exhaustive enumeration of the full product of grant / request / registration-change / configuration dimensions on the real provider against independent reference strategies",
+   text="Every combination of grant origin x granted scopes x audience x refresh-request parameters x presenter x post-issuance registration change (in place or by replacing the record) x refresh-scope configuration x scope strategy x client refresh grant x prior chain length x partial consent is executed on a fresh provider; refresh honoured only for the owner still covering every granted scope/audience and holding the grant; new tokens' sub/scope/aud equal the original grant; refresh tokens only issued under the stated conditions.",
+   note="Scope coverage judged by refstrat.go (independent implementation of the documented strategies)."),
+})
+
 # properties not (yet) claimed: reason
 not_applicable = {
 }
@@ -48,6 +59,7 @@ man = {
  "engines": [
   {"name": "HIST", "path": "h/fam.go", "serves_properties": ["C01", "C04", "C08", "C09"], "kind_free_text": "explicit-state breadth-first search over API histories of the real provider, lock-step reference model, worker subprocesses, global dedup on canonical store dump"},
   {"name": "SEQ", "path": "h/c03.go", "serves_properties": ["C03"], "kind_free_text": "exhaustive bounded enumeration of operation sequences on the real provider"},
+  {"name": "ENUM", "path": "h/c02.go h/c05.go", "serves_properties": ["C02", "C05"], "kind_free_text": "exhaustive enumeration of finite input/configuration/history-position products, each case executed on a fresh real provider and judged by an independent reference predicate"},
  ],
  "checks": [],
  "notes": "All checks rebuild the instrumented harness from /repo's working tree (./verif). Violations are re-executed 5x from their artefact before being reported; known findings live in /verif/known_findings.json.",
